@@ -79,7 +79,7 @@ class PathLimit(Exception):
 
 # ------------------------------------------------------------------------- events
 class Event:
-    __slots__ = ("kind", "node", "target", "frame", "extra")
+    __slots__ = ("kind", "node", "target", "frame", "extra", "binds")
 
     def __init__(self, kind, node, target=None, frame=None, extra=None):
         self.kind = kind  # 'call' | 'assign' | 'return' | 'raise' | 'test' | 'enter' | 'exit'
@@ -87,6 +87,7 @@ class Event:
         self.target = target  # Target for calls, target text for assigns
         self.frame = frame  # (FuncInfo, concrete ClassInfo)
         self.extra = extra
+        self.binds = None
 
     @property
     def name(self) -> str:
@@ -228,6 +229,8 @@ class Walker:
         raise_points: Callable[[ast.Call, Target], List[str]] = None,
         call_value: Callable[[ast.Call, Target, "State"], Optional[AVal]] = None,
         expr_value: Callable[[ast.AST, "State"], Optional[AVal]] = None,
+        fork_returns: bool = False,
+        symbols: Dict[str, str] = None,
         max_paths: int = 400000,
         max_depth: int = 4,
         unroll: int = 2,
@@ -239,6 +242,8 @@ class Walker:
         self.raise_points = raise_points
         self.call_value = call_value
         self.expr_value = expr_value
+        self.fork_returns = fork_returns
+        self.symbols = symbols or {}
         self.max_paths = max_paths
         self.max_depth = max_depth
         self.unroll = unroll
@@ -410,6 +415,13 @@ class Walker:
             st.add(Event("return", stmt, None, self.frame, Const(None)))
             return [("return", Const(None), st)]
         def cont(v, s):
+            if self.fork_returns and truth(v) is None:
+                s_t, s_f = s, s.copy()
+                self.assume(s_t, stmt.value, True)
+                self.assume(s_f, stmt.value, False)
+                s_t.add(Event("return", stmt, None, self.frame, TRUTHY))
+                s_f.add(Event("return", stmt, None, self.frame, FALSY))
+                return [("return", TRUTHY, s_t), ("return", FALSY, s_f)]
             s.add(Event("return", stmt, None, self.frame, v))
             return [("return", v, s)]
         return self._vals(self.eval(stmt.value, st), cont)
@@ -453,8 +465,6 @@ class Walker:
                 s1, s2 = s, s.copy()
                 self.assume(s1, stmt.test, True)
                 self.assume(s2, stmt.test, False)
-                s1.add(Event("test", stmt.test, "forked", self.frame, True))
-                s2.add(Event("test", stmt.test, "forked", self.frame, False))
                 out.extend(self.exec_block(stmt.body, s1))
                 out.extend(self.exec_block(stmt.orelse, s2))
         return out
@@ -535,7 +545,7 @@ class Walker:
                 continue
             _, itv, s0 = r
             items = None
-            if itv.kind == "const" and isinstance(itv.value, (tuple, list)) and len(itv.value) <= 4:
+            if itv.kind == "const" and isinstance(itv.value, (tuple, list)) and len(itv.value) <= 16:
                 items = list(itv.value)
             if items is not None:
                 # concrete iteration
@@ -663,6 +673,14 @@ class Walker:
                 # x is not None  ->  nothing about truthiness; x != c -> nothing
                 pass
         self._setfact(st, expr, TRUTHY if val else FALSY)
+        # leaf decision: record it (with the constant bindings of the names it mentions)
+        binds = {}
+        for n in ast.walk(expr):
+            if isinstance(n, ast.Name) and n.id in st.env and st.env[n.id].kind in ("const", "sym"):
+                binds[n.id] = st.env[n.id]
+        ev = Event("test", expr, "assumed", self.frame, val)
+        ev.binds = binds
+        st.add(ev)
 
     def _setfact(self, st: State, expr, val: AVal):
         if isinstance(expr, ast.Name):
@@ -691,6 +709,10 @@ class Walker:
         self._tick()
         if node is None:
             return [("val", Const(None), st)]
+        if self.symbols and isinstance(node, (ast.Attribute, ast.Name, ast.Call)):
+            sym = self.symbols.get(norm(node))
+            if sym is not None:
+                return [("val", AVal("sym", sym), st)]
         if not isinstance(node, (ast.Constant, ast.Name)):
             pre = st.facts.get(norm(node))
             if pre is not None and isinstance(node, (ast.Call, ast.Attribute, ast.Subscript, ast.Compare, ast.BoolOp, ast.UnaryOp)):
@@ -830,8 +852,6 @@ class Walker:
                         s_t, s_f = s2, s2.copy()
                         self.assume(s_t, operand, True)
                         self.assume(s_f, operand, False)
-                        s_t.add(Event("test", operand, "forked", self.frame, True))
-                        s_f.add(Event("test", operand, "forked", self.frame, False))
                         if is_and:
                             out.append(("val", FALSY if v.kind != "const" else v, s_f))
                             nxt.append(s_t)
@@ -1154,6 +1174,13 @@ def _binop(op, a, b) -> AVal:
 
 
 def _compare(op, a: AVal, b: AVal) -> Optional[bool]:
+    if a.kind == "ref" and b.kind == "ref":
+        same = a.value is b.value
+        if isinstance(op, (ast.Is, ast.Eq)):
+            return same
+        if isinstance(op, (ast.IsNot, ast.NotEq)):
+            return not same
+        return None
     if a.kind == "nn" and b.kind == "const" and b.value is None:
         if isinstance(op, (ast.Is, ast.Eq)):
             return False
